@@ -2,7 +2,7 @@
    a case = a scenario (Model/Factory.v), the names looked up after the start, and the
    implementation's observation of a real App.Run of the generated Go types. *)
 From Coq Require Import List Arith Bool.
-From IocVerif Require Import Model.App.
+From IocVerif Require Import Model.App Model.FactoryTrace.
 Import ListNotations.
 
 Inductive outcome : Type := OOk | OErr | OPanic | OOther.   (* OOther: crash / hang / harness trouble *)
@@ -14,7 +14,9 @@ Record obs : Type := mkObs {
   ob_log : list event;                           (* oldest first: events of the start *)
   ob_fields : list ((name * nat) * list ver);    (* every injection point of every component, by (rank, index) *)
   ob_lookups : list ltoken;                      (* GetComponentByName of each name in w_lookups, in order *)
-  ob_logafter : list event                       (* events caused by those lookups *)
+  ob_logafter : list event;                      (* events caused by those lookups *)
+  ob_ops : option (list rop * list rop)          (* calls recorded on the factory's real registry (IsSingletonCurrentlyInCreation
+                                                    left out): during the start / during the lookups; None = not traced *)
 }.
 
 Record wcase : Type := mkW {
@@ -82,6 +84,29 @@ Definition ltoken_of (o : lookup_out) : ltoken :=
   | LFail _ => LTErr
   end.
 
+(* the registry history of the model (Model/FactoryTrace.v; erasure, replay and protocol: Proofs/FactoryTraceProofs.v) *)
+Definition model_ops (vt : variant) (c : wcase) : list rop * list rop :=
+  match run_t vt (w_scn c) with
+  | (o1, Ok st) => (o1, fst (lookups_core_t vt (normalise vt (w_scn c)) (w_lookups c) st))
+  | (o1, Fail _ _) => (o1, [])
+  end.
+
+Definition optver_eqb (a b : option ver) : bool :=
+  match a, b with Some x, Some y => ver_eqb x y | None, None => true | _, _ => false end.
+
+Definition rop_eqb (a b : rop) : bool :=
+  match a, b with
+  | OAddFactory n f, OAddFactory m g => Nat.eqb n m && Nat.eqb f g
+  | ORemove n, ORemove m => Nat.eqb n m
+  | OAddSingleton n v, OAddSingleton m w => Nat.eqb n m && ver_eqb v w
+  | OGet n e f, OGet m e' g => Nat.eqb n m && Bool.eqb e e' && optver_eqb f g
+  | OBegin n, OBegin m => Nat.eqb n m
+  | OEndOk n v, OEndOk m w => Nat.eqb n m && ver_eqb v w
+  | OEndErr n, OEndErr m => Nat.eqb n m
+  | OIsCreating n, OIsCreating m => Nat.eqb n m
+  | _, _ => false
+  end.
+
 Definition model_obs (vt : variant) (c : wcase) : obs :=
   let s := w_scn c in
   let (oc, st) := match run vt s with
@@ -94,12 +119,25 @@ Definition model_obs (vt : variant) (c : wcase) : obs :=
   | OOk | OErr =>
     let (st2, outs) := lookups vt s (w_lookups c) st in
     mkObs oc (rev (log st)) (fields_obs s st) (map ltoken_of outs)
-          (rev (firstn (length (log st2) - length (log st)) (log st2)))
-  | _ => mkObs oc (rev (log st)) (fields_obs s st) [] []
+          (rev (firstn (length (log st2) - length (log st)) (log st2))) (Some (model_ops vt c))
+  | _ => mkObs oc (rev (log st)) (fields_obs s st) [] [] (Some (model_ops vt c))
+  end.
+
+(* a = model, b = implementation *)
+Definition ops_eqb (a b : obs) : bool :=
+  match ob_ops a, ob_ops b with
+  | Some (mr, ml), Some (ir, il) =>
+    match ob_outcome a with
+    | OOk => list_eqb rop_eqb mr ir && list_eqb rop_eqb ml il
+    | OErr => list_eqb rop_eqb mr ir
+    | _ => true
+    end
+  | _, _ => true
   end.
 
 Definition obs_eqb (a b : obs) : bool :=
   outcome_eqb (ob_outcome a) (ob_outcome b)
+  && ops_eqb a b
   && list_eqb event_eqb (ob_log a) (ob_log b)
   && match ob_outcome a with
      | OPanic | OOther => true      (* after a panic only outcome and log prefix are compared *)
